@@ -232,11 +232,14 @@ func genSequence(g *vkit.Rand, mode string, bulk bool) sequence {
 	s := sequence{Mode: mode, Bulk: bulk}
 	if bulk || g.Chance(0.25) {
 		s.Shards = g.Range(3, 8) // a quarter of the sequences (and the bulk ones): 3..8 shards
+	} else if g.Chance(0.1) {
+		s.Shards = 1 // a single shard: every upstream is the store's own, there is no other shard
 	}
 	s.Shard = g.Intn(s.shards())
 	pool := upstreamPool(s.shards(), 3)
 	own := pool[s.Shard][:g.Range(1, 3)]
 	other := pool[s.otherShard()][:g.Range(1, 2)]
+	single := s.shards() == 1
 	if bulk {
 		return genBulk(g, s)
 	}
@@ -250,7 +253,7 @@ func genSequence(g *vkit.Rand, mode string, bulk bool) sequence {
 	seen := map[string]bool{}
 	for i, n := 0, g.Intn(5); i < n; i++ {
 		us := own
-		if g.Chance(0.3) {
+		if g.Chance(0.3) && !single {
 			us = other
 		}
 		u, name := pickName(us)
@@ -267,6 +270,8 @@ func genSequence(g *vkit.Rand, mode string, bulk bool) sequence {
 		switch {
 		case x < 52:
 			s.Ops = append(s.Ops, genSave(g, own, pickName, next))
+		case x < 56 && single:
+			s.Ops = append(s.Ops, genSave(g, own, pickName, next))
 		case x < 56: // a condition of the other shard handed to this store (must be refused)
 			u, name := pickName(other)
 			s.Ops = append(s.Ops, op{Kind: "save", Upstream: u, Name: name, Ver: next()})
@@ -275,11 +280,13 @@ func genSequence(g *vkit.Rand, mode string, bulk bool) sequence {
 			s.Ops = append(s.Ops, op{Kind: "delete", Upstream: u, Name: name})
 		case x < 78:
 			us := own
-			if g.Chance(0.15) {
+			if g.Chance(0.15) && !single {
 				us = other
 			}
 			s.Ops = append(s.Ops, op{Kind: "delete-upstream", Upstream: us[g.Intn(len(us))]})
 		case x < 86:
+			s.Ops = append(s.Ops, op{Kind: "flush"})
+		case x < 93 && single:
 			s.Ops = append(s.Ops, op{Kind: "flush"})
 		case x < 93:
 			u, name := pickName(other)
@@ -320,7 +327,7 @@ func genSequence(g *vkit.Rand, mode string, bulk bool) sequence {
 	// a third of the sequences: the server that will take this shard over gains the OTHER shard first, at some point while
 	// the store under test is still running and acknowledging; it gains this shard right after the end of the history,
 	// in the same process, through the same client
-	if g.Chance(0.35) {
+	if g.Chance(0.35) && !single {
 		last := len(s.Ops)
 		if s.Ops[last-1].Kind == "stop" {
 			last--
